@@ -6,6 +6,7 @@ value spec  : plain JSON, or a dict with "$":
    {"$":"dt","f":[y,m,d,H,M,S,us],"tz":key|null|"local","fold":1,"raise":false}
    {"$":"naive","f":[...],"fold":0}
    {"$":"dt_raw","f":[...],"tz":key|offset,"fold":0}   pendulum.DateTime(..., tzinfo=<foreign tzinfo>)
+   {"$":"dt_ctor","f":[...],"tz":key|offset,"fold":0}  pendulum.DateTime(..., tzinfo=<pendulum zone>), not normalised
    {"$":"date","f":[y,m,d]}   {"$":"time","f":[h,m,s,us]}
    {"$":"dur","kw":{...}}     {"$":"absdur","kw":{...}}
    {"$":"iv","a":spec,"b":spec,"abs":false}        pendulum.interval(a,b,abs)
@@ -114,6 +115,10 @@ def build(spec, env: Env | None = None):
 
         tz = Timezone.from_file(io.BytesIO(tzif_bytes(spec["zone"])))
         return pendulum.datetime(*spec["f"], tz=tz, fold=spec.get("fold", 1))
+    if t == "dt_ctor":
+        # the class constructor with a pendulum zone: the fields are taken as given, *not* normalised
+        # (a wall time inside a gap, fold=1 on a fixed offset) - such values exist, e.g. after unpickling
+        return pendulum.DateTime(*spec["f"], tzinfo=_zone(spec["tz"]), fold=spec.get("fold", 0))
     if t == "dt_raw":
         # a DateTime straight from the inherited constructor: its tzinfo is the *foreign* object
         # (zoneinfo.ZoneInfo / datetime.timezone), not a pendulum zone
